@@ -1322,6 +1322,16 @@ class Interp:
             return str(recv)
         if isinstance(recv, tuple) and recv and recv[0] == "Some" and m in ("unwrap", "expect"):
             return recv[1]
+        if (recv is None or (isinstance(recv, tuple) and len(recv) == 2 and recv[0] == "Some")) and m in ("is_some", "is_none", "is_some_and", "is_none_or", "as_ref", "as_deref"):
+            if m == "is_some":
+                return recv is not None
+            if m == "is_none":
+                return recv is None
+            if m == "is_some_and":
+                return recv is not None and bool(self.apply(args[0], recv[1]))
+            if m == "is_none_or":
+                return recv is None or bool(self.apply(args[0], recv[1]))
+            return recv
         # Option combinators (None is Python None, Some(x) is ("Some", x))
         if m in ("and_then", "unwrap_or", "unwrap_or_else", "unwrap_or_default") and (recv is None or (isinstance(recv, tuple) and recv and recv[0] == "Some")):
             if m == "and_then":
